@@ -27,15 +27,20 @@ def run(ctx, rep):
     work = ctx.sub("ukv")
     path = os.path.join(work, "t.ukv")
     hists = [(h, 1) for h in exhaustive_histories(4 if ctx.thorough else 3)]
+    nexh = len(hists)
     nrand = 4000 if ctx.thorough else 500
     for _ in range(nrand):
-        hists.append((U.gen_history(ctx.rng, nh=3, maxlen=25, big=True), 3))
+        # extended operation set: items()/values(), h[k] / h[k] = v / `with h:` spellings, pickled handle copies
+        hists.append((U.gen_history(ctx.rng, nh=3, maxlen=25, big=True, views=True), 3))
     hdrs = [dict(), dict(h2=b"a comment", b0=b"\x00\x01descr"), dict(h1=b"ML10Library", h2=b"x" * 300)]
-    cases, meta = [], []
+    cases, vcases, meta = [], [], []
     for n, (h, nh) in enumerate(hists):
         d = U.drive(path, h, nh=nh, **hdrs[n % 3])
-        cases.append(U.case_coq(d, nh))
+        (cases if n < nexh else vcases).append(U.case_coq(d, nh) if n < nexh else U.vcase_coq(d, nh))
         meta.append((h, nh, n % 3))
+        for o in h:
+            if len(o) > 2 and o[-1] in ("item", "enter", "exit"):
+                rep.count("spelling:" + o[0] + ":" + o[-1])
         nontriv = any(r == "ROk" and o.startswith("Put") for o, r in zip(d["ops"], d["results"])) and \
             (sum(o.startswith("Open") for o in d["ops"]) > 1 or any("RErr" in r for r in d["results"]))
         rep.case(key="; ".join(d["ops"]) if nontriv else None,
@@ -45,6 +50,11 @@ def run(ctx, rep):
         for sig, text in d["oracle"]:
             rep.violate(sig, text, {"ops": [_ser(o) for o in h], "nh": nh, "hdr": n % 3})
     bad = vlib.run_shards(ctx, rep, "c02", U.HEADER, "check_case", cases, shard=300, case_type="case")
+    vbad = vlib.run_shards(ctx, rep, "c02v", U.HEADER_V, "check_vcase", vcases, shard=300, case_type="vcase")
+    if bad is not None and vbad is not None:
+        bad = bad + [nexh + x for x in vbad]
+    elif vbad is None:
+        bad = None
     # ---- Collection / backend level: write queue, key set, buffer sizes, sessions
     bcases, bmeta = [], []
     cpath = os.path.join(work, "c.ukv")
@@ -93,11 +103,13 @@ def _ser(o):
 def _deser(o, coll=False):
     o = list(o)
     if coll:
-        return ("put", o[1], o[2], U.Val(*o[3])) if o[0] == "put" else tuple(o)
+        if o[0] == "put":
+            return ("put", o[1], o[2], U.Val(*o[3])) + tuple(o[4:])
+        return tuple(o)
     if o[0] == "put":
-        return ("put", o[1], bytes.fromhex(o[2]), U.Val(*o[3]))
+        return ("put", o[1], bytes.fromhex(o[2]), U.Val(*o[3])) + tuple(o[4:])
     if o[0] == "get":
-        return ("get", o[1], bytes.fromhex(o[2]))
+        return ("get", o[1], bytes.fromhex(o[2])) + tuple(o[3:])
     return tuple(o)
 
 
